@@ -16,7 +16,7 @@ From Steady Require Import SteadyLoop GenSteadyFacts SteadyLoopProofs Relax Stea
 
 Theorem C15_facts_pinned :
   gen_ss_facts = mkSSFacts 100%Z 1000%N CmpLt NormL2 PrevCopy RelDivPrev ExhaustFail true
-  /\ gen_plumb_facts = mkPlumb true true.
+  /\ gen_plumb_facts = mkPlumb true true (4722366482869645 # 4722366482869645213696)%Q.
 Proof. split; vm_compute; reflexivity. Qed.
 Print Assumptions C15_facts_pinned.
 
@@ -148,20 +148,16 @@ Print Assumptions C15_alias_refuted.
 Theorem C15_failure_propagates :
   forall (tol : Q) (rel : bool) (y0 : vec) (y : nat -> vec),
     (ss_run gen_ss_facts tol rel y0 y = SSNoSteady ->
-       (exists s, sim_to_steady sim_fresh (ss_run gen_ss_facts tol rel y0 y) = Some s
-                  /\ get_result s = RError ENoSteadyState)
-       /\ steady_state_row gen_plumb_facts gen_ss_facts tol rel y0 y = Some RowNaN)
+       exists s, sim_to_steady sim_fresh (ss_run gen_ss_facts tol rel y0 y) = Some s
+                 /\ get_result s = RError ENoSteadyState)
+    /\ (ss_run gen_ss_facts (pf_default_tol gen_plumb_facts) rel y0 y = SSNoSteady ->
+         steady_state_row gen_plumb_facts gen_ss_facts rel y0 y = Some RowNaN)
     /\ (forall t v, ss_run gen_ss_facts tol rel y0 y = SSSteady t v ->
-       (exists s, sim_to_steady sim_fresh (ss_run gen_ss_facts tol rel y0 y) = Some s
-                  /\ get_result s = RSimulation [(t, v)])
-       /\ steady_state_row gen_plumb_facts gen_ss_facts tol rel y0 y = Some (RowValues v)).
-Proof.
-  exact (fun tol rel y0 y =>
-    conj (failure_propagates gen_plumb_facts gen_ss_facts tol rel y0 y
-            (f_equal pf_sim_ok (proj2 C15_facts_pinned)) (f_equal pf_worker_ok (proj2 C15_facts_pinned)))
-         (fun t v => success_propagates gen_plumb_facts gen_ss_facts tol rel y0 y t v
-            (f_equal pf_sim_ok (proj2 C15_facts_pinned)) (f_equal pf_worker_ok (proj2 C15_facts_pinned)))).
-Qed.
+         exists s, sim_to_steady sim_fresh (ss_run gen_ss_facts tol rel y0 y) = Some s
+                   /\ get_result s = RSimulation [(t, v)])
+    /\ (forall t v, ss_run gen_ss_facts (pf_default_tol gen_plumb_facts) rel y0 y = SSSteady t v ->
+         steady_state_row gen_plumb_facts gen_ss_facts rel y0 y = Some (RowValues v)).
+Proof. exact (p_plumbing C15_facts_pinned). Qed.
 Print Assumptions C15_failure_propagates.
 
 (** non-vacuity: y n = 3 - 2 (1/2)^n meets the hypotheses of [C15_distance_bound] and the loop
